@@ -112,6 +112,10 @@ def gen_inlines(c, depth=0, allow_link=True, allow_break=True, n=None, allow_htm
                 # a code span delimiter of three or more backticks could end up at the start of a line and open a fence;
                 # code whose content has edge or double spaces is a recorded finding (spaces are lost when it is wrapped)
                 it = N('code', content='a b', extra=0)
+            if (allow_break and not c.canonical and not c.reflow and 'tabs' not in c.exclude and t.chance(40)
+                    and it.content == it.content.strip() and ' ' in it.content and '  ' not in it.content
+                    and it.content.split(' ', 1)[1][:1].isalnum()):
+                it.a['nl'] = True           # the code span runs over two lines
         elif k < 74 and allow_link:
             it = gen_link(c, depth, image=False)
         elif k < 78 and allow_link:
@@ -207,6 +211,10 @@ def gen_link(c, depth, image):
     children = gen_inlines(c, depth + 1, False, False, 1 + t.below(2), False)
     if image and t.chance(128):
         children = [gen_word(c)]
+    if not image and not c.canonical and not c.reflow and t.chance(24):
+        # an image as (part of) the link text; links may not nest, images may
+        children = children[:1] + [N('sp'), N('image', children=[gen_word(c)], dest=t.choice(['/img.png', 'i_j.png']), title='',
+                                              angle=False, tq=None, tsep=1)]
     title = t.choice(TITLES)
     if 'dest_escape' in c.exclude:
         title = title if title in ('', 't', 'two words', 'ä') else 't'
@@ -321,6 +329,7 @@ def gen_atx(c):
     if not inl and 'empty_atx_closing' in c.exclude:
         closing = ''
     return N('atx', level=level, inl=inl, closing=closing, sp=1 if c.canonical else t.weighted([(4, 1), (1, 2), (1, 3)]),
+             sp_tab=(not c.canonical and not c.reflow and t.chance(20)),
              csp=1 if c.canonical else t.weighted([(4, 1), (1, 3)]), trail='' if c.canonical else t.choice(['', '', '  ']))
 
 
@@ -590,6 +599,8 @@ def plan_labels(c):
             dests = ['/url%d%d' % (i, j), 'http://h%d/p%d' % (i, j), '/a_b%d%d' % (i, j)]
             titles = ['', '', 't%d%d' % (i, j), 'two words %d' % j]
             if not c.reflow and not c.canonical:
+                # the indentation of a title's continuation lines belongs to the title
+                titles += ['two\nlines %d' % j, 'three\nshort\nlines', 'two\n  indented %d' % j]
                 # source spellings with backslash escapes and character references (real ones and look-alikes)
                 if 'dest_escape' not in c.exclude:
                     dests += ['/a\\*b%d%d' % (i, j), '/a\\\\*b%d%d' % (i, j)]
